@@ -138,7 +138,6 @@ theorem plain_step {d : Array Nat} {nbF p cur : Nat} {it : Iter} {e : Ext} {flag
     have a2 : ¬ 0 < itx.repeatFrame := by rw [hx.rf]; omega
     have a3 : ¬ itx.frameMax ≤ (itx.currFrame : Int) := by rw [hx.fm, hx.cf]; omega
     simp only [a1, a2, a3, if_false]
-  rw [show next it = mainLoop it from hnext it hs] at *
   by_cases hsame : e.frame.toNat = cur
   · have hsep : sepBytes e.frame.toNat cur = [] := by simp [sepBytes, hsame]
     simp only [hsep, List.nil_append, List.length_nil, Nat.add_zero, hsame, if_true] at hat hend ⊢
@@ -164,8 +163,7 @@ theorem plain_step {d : Array Nat} {nbF p cur : Nat} {it : Iter} {e : Ext} {flag
     obtain ⟨it2, g1, g2, g3, g4⟩ := mainBody_ext h2 hv rfl hat' (by omega) hflag
     simp only [hsame, if_false]
     refine ⟨it2, ?_, g2, ?_⟩
-    · apply Steps.of_next (r := { id := e.id.toNat, frame := e.frame.toNat,
-          off := p + (sepBytes e.frame.toNat cur).length + 1 + hdrLen e flag, len := e.len })
+    · apply Steps.of_next (r := ⟨e.id.toNat, e.frame.toNat, p + (sepBytes e.frame.toNat cur).length + 1 + hdrLen e flag, e.len⟩)
       · rw [hnext it hs, mainLoop_eq]; simp only [hcl, if_true, h1]
         rw [mainLoop_eq]; simp only [hcl1, if_true, g1]
       · exact toExt_eq hv _ rfl (at_payload hv hat')
